@@ -18,8 +18,9 @@
 //!              transitivity of the recorded `compare` results - independent of the native `Ord`
 //! * minimum:   `K::min_encoded_key()`, where provided, is a valid encoding that compares <= every
 //!              element of D
-//! * table:     the whole domain is inserted (three insertion orders, several commits) as the keys of
-//!              a real `TableDefinition<K, u64>` on a database with 512 byte pages, so that branch pages
+//! * table:     (for 43 of the key types; see `check_type` vs `check_only`) the whole domain is
+//!              inserted (three insertion orders, several commits, two value sizes) as the keys of
+//!              a real `TableDefinition<K, &[u8]>` on a database with 512 byte pages, so that branch pages
 //!              are built from exactly these separators; after a clean close the image is decoded by
 //!              the independent decoder (types it has a comparator for), reopened, and `iter`, `len`,
 //!              `get`, `range` (forward and reverse) are compared with the sorted domain; then every
@@ -292,6 +293,7 @@ struct TypeStats {
 struct TableOut {
     type_name: String,
     order: &'static str,
+    value_len: usize,
     keys: usize,
     ops: u64,
     height: Option<u32>,
@@ -327,7 +329,8 @@ struct Ctx {
     types: Vec<TypeStats>,
     viols: Vec<Viol>,
     jobs: Vec<Job>,
-    caps_hit: Vec<String>,
+    /// domains larger than `table_max`: the table step (only) uses an evenly spaced subset
+    subsampled: Vec<String>,
 }
 
 // ------------------------------------------------------------------------------------------------
@@ -344,13 +347,19 @@ fn reencode<K: Native>(data: &[u8]) -> Vec<u8> {
     K::as_bytes(&v).as_ref().to_vec()
 }
 
-fn pair_row<K: Native>(name: &str, vals: &[K::SelfType<'static>], encs: &[Vec<u8>], i: usize) -> RowOut
+fn pair_row<K: Native>(
+    name: &str,
+    vals: &[K::SelfType<'static>],
+    encs: &[Vec<u8>],
+    i: usize,
+    keep_cmp: bool,
+) -> RowOut
 where
     K::SelfType<'static>: Send + Sync,
 {
     let mut out = RowOut::default();
     let n = vals.len();
-    out.cmp = vec![0; n];
+    out.cmp = vec![0; if keep_cmp { n } else { 0 }];
     let width = K::fixed_width();
     let a = &encs[i];
     for j in 0..n {
@@ -365,7 +374,7 @@ where
                 "native_order_a_b": format!("{native:?}"),
             })
         };
-        let mut push = |out: &mut RowOut, key: String, msg: String, replay: serde_json::Value| {
+        let push = |out: &mut RowOut, key: String, msg: String, replay: serde_json::Value| {
             if out.viols.len() < MAX_VIOLS_PER_ROW {
                 out.viols.push(Viol { key, msg, replay });
             }
@@ -380,11 +389,15 @@ where
                     format!("{name}: compare({}, {}) panicked: {p}", short_dbg(&vals[i]), short_dbg(&vals[j])),
                     replay("compare-panic", None),
                 );
-                out.cmp[j] = 2;
+                if keep_cmp {
+                    out.cmp[j] = 2;
+                }
                 continue;
             }
         };
-        out.cmp[j] = ord_i8(real);
+        if keep_cmp {
+            out.cmp[j] = ord_i8(real);
+        }
         if real != native {
             push(
                 &mut out,
@@ -639,7 +652,39 @@ where
     (calls, viols)
 }
 
-fn check_type<K: Native>(ctx: &mut Ctx, name: &str, mut vals: Vec<K::SelfType<'static>>, decodable: bool, table: bool)
+/// The trait-method checks and, as a second step run later together with all other types' table
+/// steps, the integration check on a real table
+fn check_type<K: Native>(ctx: &mut Ctx, name: &str, vals: Vec<K::SelfType<'static>>, decodable: bool, table: bool)
+where
+    K::SelfType<'static>: Send + Sync + Clone,
+{
+    let vals = check_only::<K>(ctx, name, vals);
+    let n = vals.len();
+    if table && n >= 1 {
+        let mut sub: Vec<K::SelfType<'static>> = vals.clone();
+        if n > ctx.limits.table_max {
+            let m = ctx.limits.table_max;
+            sub = (0..m).map(|x| vals[x * (n - 1) / (m - 1)].clone()).collect();
+            ctx.subsampled.push(format!("{name}: {m} evenly spaced keys of {n}"));
+        }
+        let shared: Arc<Vec<K::SelfType<'static>>> = Arc::new(sub);
+        for order in ctx.limits.orders {
+            let order: &'static str = order;
+            for vlen in [SLIM, FAT] {
+                let (shared, name) = (shared.clone(), name.to_string());
+                ctx.jobs.push(Box::new(move || table_step::<K>(&name, &shared, order, vlen, decodable)));
+            }
+        }
+    }
+}
+
+/// The trait-method checks alone (does not instantiate redb's b-tree for `K`).  Returns the sorted,
+/// deduplicated domain.
+fn check_only<K: Native>(
+    ctx: &mut Ctx,
+    name: &str,
+    mut vals: Vec<K::SelfType<'static>>,
+) -> Vec<K::SelfType<'static>>
 where
     K::SelfType<'static>: Send + Sync + Clone,
 {
@@ -669,7 +714,7 @@ where
         // nothing else is meaningful without encodings
         ctx.viols.extend(viols);
         ctx.types.push(st);
-        return;
+        return vec![];
     }
     for (v, e) in vals.iter().zip(&encs) {
         st.max_key_len = st.max_key_len.max(e.len());
@@ -720,8 +765,9 @@ where
 
     // ordered pairs and separators
     let rows: Vec<usize> = (0..n).collect();
-    let outs: Vec<RowOut> = par::map(&rows, |_, i| pair_row::<K>(name, &vals, &encs, *i));
-    let mut matrix: Vec<i8> = Vec::with_capacity(n * n);
+    let keep_cmp = n <= ctx.limits.triple_max;
+    let outs: Vec<RowOut> = par::map(&rows, |_, i| pair_row::<K>(name, &vals, &encs, *i, keep_cmp));
+    let mut matrix: Vec<i8> = Vec::with_capacity(if keep_cmp { n * n } else { 0 });
     let mut seps: BTreeSet<Vec<u8>> = BTreeSet::new();
     for o in outs {
         matrix.extend_from_slice(&o.cmp);
@@ -750,11 +796,11 @@ where
     }
 
     // triples, on the recorded results of compare()
-    if n <= ctx.limits.triple_max {
+    if keep_cmp {
         let m = &matrix;
         let bad: Vec<Option<(usize, usize, usize, &'static str)>> = par::map(&rows, |_, i| {
             let i = *i;
-            if m[i * n + i] != 0 {
+            if m[i * n + i] != 0 && m[i * n + i] != 2 {
                 return Some((i, i, i, "reflexivity"));
             }
             for j in 0..n {
@@ -882,23 +928,6 @@ where
         }),
     }
 
-    // the table step, run later with all other types' table steps
-    if table && n >= 1 {
-        let mut sub: Vec<K::SelfType<'static>> = vals.clone();
-        if n > ctx.limits.table_max {
-            let m = ctx.limits.table_max;
-            sub = (0..m).map(|x| vals[x * (n - 1) / (m - 1)].clone()).collect();
-            ctx.caps_hit.push(format!("table step of {name}: evenly spaced {m} of {n} keys"));
-        }
-        let shared: Arc<Vec<K::SelfType<'static>>> = Arc::new(sub);
-        for order in ctx.limits.orders {
-            let shared = shared.clone();
-            let name = name.to_string();
-            let order: &'static str = order;
-            ctx.jobs.push(Box::new(move || table_step::<K>(&name, &shared, order, decodable)));
-        }
-    }
-
     // keep the evidence small: at most a few violations per key class
     let mut per_key: BTreeMap<String, usize> = BTreeMap::new();
     for v in viols {
@@ -909,11 +938,36 @@ where
         }
     }
     ctx.types.push(st);
+    vals
 }
 
 // ------------------------------------------------------------------------------------------------
 // the table step
 // ------------------------------------------------------------------------------------------------
+
+/// The value stored with every key: the rank of the key in the sorted domain as 8 little endian
+/// bytes, either bare (many keys per leaf) or padded with a5 to 150 bytes (about three keys per
+/// 512 byte leaf, so that nearly every pair of neighbouring keys of the domain meets in a branch
+/// separator at some point).  One value type for both, to keep the number of instantiations of
+/// redb's generic b-tree code (one per key type) and with it the build time down.
+type V = &'static [u8];
+
+const SLIM: usize = 8;
+const FAT: usize = 150;
+
+fn raw_value(rank: usize, len: usize) -> Vec<u8> {
+    let mut b = (rank as u64).to_le_bytes().to_vec();
+    b.resize(len, 0xA5);
+    b
+}
+
+fn rank_of(v: &[u8], len: usize) -> Option<usize> {
+    if v.len() == len && v[8..].iter().all(|x| *x == 0xA5) {
+        Some(u64::from_le_bytes(v[..8].try_into().unwrap()) as usize)
+    } else {
+        None
+    }
+}
 
 const PAGE_SIZE: usize = 512;
 const REGION_SIZE: u64 = 32 * 1024;
@@ -980,35 +1034,42 @@ fn branch_key_stats(image: &[u8], t: &decode::DecodedTable, keys: &BTreeSet<&[u8
     (branches, shortened)
 }
 
-fn table_step<K: Native>(name: &str, vals: &[K::SelfType<'static>], order: &'static str, decodable: bool) -> TableOut
+fn table_step<K: Native>(
+    name: &str,
+    vals: &[K::SelfType<'static>],
+    order: &'static str,
+    vlen: usize,
+    decodable: bool,
+) -> TableOut
 where
     K::SelfType<'static>: Send + Sync + Clone,
 {
-    let mut out = TableOut { type_name: name.to_string(), order, keys: vals.len(), ..Default::default() };
+    let mut out =
+        TableOut { type_name: name.to_string(), order, value_len: vlen, keys: vals.len(), ..Default::default() };
     let mut ops = 0u64;
     let mut info: (Option<u32>, u64, u64, bool) = (None, 0, 0, false);
-    let r = par::guarded(|| table_body::<K>(vals, order, decodable, &mut ops, &mut info));
+    let r = par::guarded(|| table_body::<K>(vals, order, vlen, decodable, &mut ops, &mut info));
     out.ops = ops;
     out.height = info.0;
     out.branch_pages = info.1;
     out.shortened_branch_keys = info.2;
     out.decoded = info.3;
     let replay = json!({
-        "engine": "typex", "type": name, "check": "table", "insertion_order": order,
+        "engine": "typex", "type": name, "check": "table", "insertion_order": order, "value_len": vlen,
         "page_size": PAGE_SIZE, "region_size": REGION_SIZE, "cache_size": 0,
-        "recipe": "insert the keys (in the given insertion order; value = rank of the key in the sorted domain) into TableDefinition<K,u64> \"t\", committing after every third of them; close; reopen from the image; compare iter/len/get/range with the sorted domain; remove every second key; commit; compare; remove the rest",
+        "recipe": "insert the keys (in the given insertion order; value = rank of the key in the sorted domain) into TableDefinition<K,V> \"t\" (V = &[u8]: the rank as 8 LE bytes, padded with a5 to value_len bytes), committing after every third of them; close; reopen from the image; compare iter/len/get/range with the sorted domain; remove every second key; commit; compare; remove the rest",
         "keys_sorted": vals.iter().take(4000).map(|v| short_dbg(v)).collect::<Vec<_>>(),
     });
     match r {
         Ok(Ok(())) => {}
         Ok(Err((class, msg))) => out.viols.push(Viol {
             key: format!("typex:table:{name}:{class}"),
-            msg: format!("{name} ({order} insertion of {} keys): {msg}", vals.len()),
+            msg: format!("{name} ({order} insertion of {} keys, {vlen} byte values): {msg}", vals.len()),
             replay,
         }),
         Err(p) => out.viols.push(Viol {
             key: format!("typex:table:{name}:panic:{}", panic_key(&p)),
-            msg: format!("{name} ({order} insertion of {} keys): panic: {p}", vals.len()),
+            msg: format!("{name} ({order} insertion of {} keys, {vlen} byte values): panic: {p}", vals.len()),
             replay,
         }),
     }
@@ -1024,6 +1085,7 @@ fn se<E: std::fmt::Display>(what: &'static str) -> impl Fn(E) -> StepErr {
 fn table_body<K: Native>(
     vals: &[K::SelfType<'static>],
     order: &str,
+    vlen: usize,
     decodable: bool,
     ops: &mut u64,
     info: &mut (Option<u32>, u64, u64, bool),
@@ -1032,7 +1094,7 @@ where
     K::SelfType<'static>: Send + Sync + Clone,
 {
     let n = vals.len();
-    let def: TableDefinition<K, u64> = TableDefinition::new("t");
+    let def: TableDefinition<K, V> = TableDefinition::new("t");
     let encs: Vec<Vec<u8>> = vals.iter().map(|v| encode::<K>(v)).collect();
     let perm = insertion_order(order, n);
 
@@ -1046,8 +1108,8 @@ where
             let mut t = txn.open_table(def).map_err(se("open_table"))?;
             for &i in part {
                 *ops += 1;
-                let old = t.insert(&vals[i], &(i as u64)).map_err(se("insert"))?;
-                if old.is_some() {
+                let existed = t.insert(&vals[i], raw_value(i, vlen).as_slice()).map(|old| old.is_some()).map_err(se("insert"))?;
+                if existed {
                     return Err((
                         "insert-found-existing".into(),
                         format!("insert({}) reports an existing value, the key was never inserted", short_dbg(&vals[i])),
@@ -1075,13 +1137,13 @@ where
             return Err(("decode-contents".into(), format!("decoder sees {} entries, {} inserted", got.len(), n)));
         }
         for (i, (k, v)) in got.iter().enumerate() {
-            if *k != encs[i] || v[..] != (i as u64).to_le_bytes()[..] {
+            if *k != encs[i] || *v != raw_value(i, vlen) {
                 return Err((
                     "decode-contents".into(),
                     format!(
                         "entry {i} in file order is key {} value {}, expected key {} ({}) value {i}",
                         hex(k),
-                        hex(v),
+                        hex(&v[..v.len().min(8)]),
                         hex(&encs[i]),
                         short_dbg(&vals[i])
                     ),
@@ -1106,7 +1168,24 @@ where
         let rt = db.begin_read().map_err(se("begin_read"))?;
         let t = rt.open_table(def).map_err(se("open_table (read)"))?;
         let all: Vec<usize> = (0..n).collect();
-        verify::<K>(&t, vals, &all, &[], ops)?;
+        verify::<K>(&t, vals, &all, &[], vlen, ops)?;
+        *ops += 1;
+        let stats = t.stats().map_err(se("stats"))?;
+        if let Some(h) = info.0 {
+            if h != stats.tree_height() || info.1 != stats.branch_pages() {
+                return Err((
+                    "stats".into(),
+                    format!(
+                        "stats() reports height {} with {} branch pages, the decoder found height {h} with {} branch pages",
+                        stats.tree_height(),
+                        stats.branch_pages(),
+                        info.1
+                    ),
+                ));
+            }
+        }
+        info.0 = Some(stats.tree_height());
+        info.1 = stats.branch_pages();
     }
 
     // remove every second key
@@ -1120,11 +1199,15 @@ where
                 *ops += 1;
                 let old = t.remove(&vals[i]).map_err(se("remove"))?;
                 match old {
-                    Some(g) if g.value() == i as u64 => {}
+                    Some(g) if rank_of(g.value(), vlen) == Some(i) => {}
                     Some(g) => {
                         return Err((
                             "remove-wrong-value".into(),
-                            format!("remove({}) returned value {}, expected {i}", short_dbg(&vals[i]), g.value()),
+                            format!(
+                                "remove({}) returned the value of rank {:?}, expected {i}",
+                                short_dbg(&vals[i]),
+                                rank_of(g.value(), vlen)
+                            ),
                         ));
                     }
                     None => {
@@ -1135,14 +1218,14 @@ where
                     }
                 }
             }
-            verify::<K>(&t, vals, &kept, &removed, ops)?;
+            verify::<K>(&t, vals, &kept, &removed, vlen, ops)?;
         }
         txn.commit().map_err(se("commit"))?;
     }
     {
         let rt = db.begin_read().map_err(se("begin_read"))?;
         let t = rt.open_table(def).map_err(se("open_table (read)"))?;
-        verify::<K>(&t, vals, &kept, &removed, ops)?;
+        verify::<K>(&t, vals, &kept, &removed, vlen, ops)?;
     }
     // re-insert the removed half in the opposite direction (keys now land next to separators that
     // were computed from their former neighbours), then remove everything
@@ -1152,7 +1235,7 @@ where
             let mut t = txn.open_table(def).map_err(se("open_table"))?;
             for &i in perm.iter().rev().filter(|i| **i % 2 == 1) {
                 *ops += 1;
-                if t.insert(&vals[i], &(i as u64)).map_err(se("insert"))?.is_some() {
+                if t.insert(&vals[i], raw_value(i, vlen).as_slice()).map(|old| old.is_some()).map_err(se("insert"))? {
                     return Err((
                         "insert-found-existing".into(),
                         format!("re-insert({}) reports an existing value after its removal", short_dbg(&vals[i])),
@@ -1160,7 +1243,7 @@ where
                 }
             }
             let all: Vec<usize> = (0..n).collect();
-            verify::<K>(&t, vals, &all, &[], ops)?;
+            verify::<K>(&t, vals, &all, &[], vlen, ops)?;
         }
         txn.commit().map_err(se("commit"))?;
         let txn = db.begin_write().map_err(se("begin_write"))?;
@@ -1169,7 +1252,7 @@ where
             for &i in &perm {
                 *ops += 1;
                 match t.remove(&vals[i]).map_err(se("remove"))? {
-                    Some(g) if g.value() == i as u64 => {}
+                    Some(g) if rank_of(g.value(), vlen) == Some(i) => {}
                     _ => {
                         return Err((
                             "remove-missing".into(),
@@ -1205,10 +1288,11 @@ where
 
 /// `present` / `absent`: indices into `vals` (sorted in the native order)
 fn verify<K: Native>(
-    t: &impl ReadableTable<K, u64>,
+    t: &impl ReadableTable<K, V>,
     vals: &[K::SelfType<'static>],
     present: &[usize],
     absent: &[usize],
+    vlen: usize,
     ops: &mut u64,
 ) -> Result<(), StepErr>
 where
@@ -1226,13 +1310,13 @@ where
         match it.next() {
             Some(Ok((k, v))) => {
                 let kv = k.value();
-                if K::ncmp(&kv, &vals[i]) != Ordering::Equal || v.value() != i as u64 {
+                if K::ncmp(&kv, &vals[i]) != Ordering::Equal || rank_of(v.value(), vlen) != Some(i) {
                     return Err((
                         "iter-order".into(),
                         format!(
-                            "iter() position {pos}: got key {} value {}, expected key {} value {i}",
+                            "iter() position {pos}: got key {} with the value of rank {:?}, expected key {} value {i}",
                             short_dbg(&kv),
-                            v.value(),
+                            rank_of(v.value(), vlen),
                             short_dbg(&vals[i])
                         ),
                     ));
@@ -1258,7 +1342,7 @@ where
         match it.next() {
             Some(Ok((k, v))) => {
                 let kv = k.value();
-                if K::ncmp(&kv, &vals[i]) != Ordering::Equal || v.value() != i as u64 {
+                if K::ncmp(&kv, &vals[i]) != Ordering::Equal || rank_of(v.value(), vlen) != Some(i) {
                     return Err((
                         "iter-order".into(),
                         format!("iter().rev(): got key {}, expected key {}", short_dbg(&kv), short_dbg(&vals[i])),
@@ -1277,11 +1361,11 @@ where
     for &i in present {
         *ops += 1;
         match t.get(&vals[i]).map_err(se("get"))? {
-            Some(g) if g.value() == i as u64 => {}
+            Some(g) if rank_of(g.value(), vlen) == Some(i) => {}
             Some(g) => {
                 return Err((
                     "get-wrong-value".into(),
-                    format!("get({}) = {}, expected {i}", short_dbg(&vals[i]), g.value()),
+                    format!("get({}) = value of rank {:?}, expected {i}", short_dbg(&vals[i]), rank_of(g.value(), vlen)),
                 ));
             }
             None => {
@@ -1294,7 +1378,7 @@ where
         if let Some(g) = t.get(&vals[i]).map_err(se("get"))? {
             return Err((
                 "get-phantom".into(),
-                format!("get({}) = {}, the key was removed", short_dbg(&vals[i]), g.value()),
+                format!("get({}) = value of rank {:?}, the key was removed", short_dbg(&vals[i]), rank_of(g.value(), vlen)),
             ));
         }
     }
@@ -1308,7 +1392,7 @@ where
         for &hi in &marks[x..] {
             let want: Vec<usize> = present.iter().copied().filter(|i| *i >= lo && *i < hi).collect();
             *ops += 1;
-            let got = collect_range::<K>(t.range(&vals[lo]..&vals[hi]).map_err(se("range"))?)?;
+            let got = collect_range::<K>(t.range(&vals[lo]..&vals[hi]).map_err(se("range"))?, vlen)?;
             if got != want {
                 return Err((
                     "range".into(),
@@ -1323,7 +1407,7 @@ where
             }
             let want: Vec<usize> = present.iter().copied().filter(|i| *i >= lo && *i <= hi).rev().collect();
             *ops += 1;
-            let got = collect_range::<K>(t.range(&vals[lo]..=&vals[hi]).map_err(se("range"))?.rev())?;
+            let got = collect_range::<K>(t.range(&vals[lo]..=&vals[hi]).map_err(se("range"))?.rev(), vlen)?;
             if got != want {
                 return Err((
                     "range".into(),
@@ -1339,7 +1423,7 @@ where
         }
         let want: Vec<usize> = present.iter().copied().filter(|i| *i >= lo).collect();
         *ops += 1;
-        let got = collect_range::<K>(t.range(&vals[lo]..).map_err(se("range"))?)?;
+        let got = collect_range::<K>(t.range(&vals[lo]..).map_err(se("range"))?, vlen)?;
         if got != want {
             return Err((
                 "range".into(),
@@ -1348,7 +1432,7 @@ where
         }
         let want: Vec<usize> = present.iter().copied().filter(|i| *i < lo).collect();
         *ops += 1;
-        let got = collect_range::<K>(t.range(..&vals[lo]).map_err(se("range"))?)?;
+        let got = collect_range::<K>(t.range(..&vals[lo]).map_err(se("range"))?, vlen)?;
         if got != want {
             return Err((
                 "range".into(),
@@ -1369,12 +1453,14 @@ fn abbreviate(v: &[usize]) -> String {
 
 /// the values (= ranks) a range iterator yields
 fn collect_range<'a, K: Native>(
-    it: impl Iterator<Item = Result<(redb::AccessGuard<'a, K>, redb::AccessGuard<'a, u64>), redb::StorageError>>,
+    it: impl Iterator<Item = Result<(redb::AccessGuard<'a, K>, redb::AccessGuard<'a, V>), redb::StorageError>>,
+    vlen: usize,
 ) -> Result<Vec<usize>, StepErr> {
     let mut out = vec![];
     for e in it {
         let (_, v) = e.map_err(se("range iteration"))?;
-        out.push(v.value() as usize);
+        // an unreadable payload shows up as an impossible rank
+        out.push(rank_of(v.value(), vlen).unwrap_or(usize::MAX));
     }
     Ok(out)
 }
@@ -1396,19 +1482,23 @@ fn all_domains(ctx: &mut Ctx, thorough: bool) {
     check_type::<i64>(ctx, "i64", sints(64), true, true);
     check_type::<i128>(ctx, "i128", sints(128), true, true);
     if thorough {
-        // every 16 bit value is affordable for the pair check of compare alone? 65536^2 pairs is not;
-        // instead all values whose two bytes are drawn from a 16 letter alphabet (256 values)
-        let alpha: [u8; 16] = [0, 1, 2, 0x3F, 0x40, 0x7E, 0x7F, 0x80, 0x81, 0xBF, 0xC0, 0xFD, 0xFE, 0xFF, 0x10, 0xEF];
-        let mut u = vec![];
-        let mut s = vec![];
+        // every 16 bit value: 2^32 ordered pairs per type (too large for the triple check, and the
+        // table step takes an evenly spaced subsample)
+        check_type::<u16>(ctx, "u16 (all 65536 values)", (0..=u16::MAX).collect(), true, true);
+        check_type::<i16>(ctx, "i16 (all 65536 values)", (i16::MIN..=i16::MAX).collect(), true, true);
+        // 24 bits as char: every scalar value whose three bytes come from a 12 letter alphabet
+        let alpha: [u8; 12] = [0, 1, 0x0F, 0x10, 0x7F, 0x80, 0xD7, 0xD8, 0xDF, 0xE0, 0xFE, 0xFF];
+        let mut c = vec![];
         for hi in alpha {
-            for lo in alpha {
-                u.push(u16::from_le_bytes([lo, hi]));
-                s.push(i16::from_le_bytes([lo, hi]));
+            for mid in alpha {
+                for lo in alpha {
+                    if let Some(x) = char::from_u32(u32::from_le_bytes([lo, mid, hi, 0])) {
+                        c.push(x);
+                    }
+                }
             }
         }
-        check_type::<u16>(ctx, "u16 (byte alphabet)", u, true, true);
-        check_type::<i16>(ctx, "i16 (byte alphabet)", s, true, true);
+        check_type::<char>(ctx, "char (byte alphabet)", c, true, true);
     }
     check_type::<bool>(ctx, "bool", vec![false, true], true, true);
     check_type::<()>(ctx, "()", vec![()], true, true);
@@ -1440,7 +1530,7 @@ fn all_domains(ctx: &mut Ctx, thorough: bool) {
     let a2: Vec<[u8; 2]> = arr2(&b5);
     let a3: Vec<[u8; 3]> = arr3(&b5);
     let r2: Vec<&'static [u8; 2]> = a2.iter().map(|x| &*Box::leak(Box::new(*x))).collect();
-    check_type::<[u8; 1]>(ctx, "[u8;1]", a1, true, true);
+    check_only::<[u8; 1]>(ctx, "[u8;1]", a1);
     check_type::<[u8; 2]>(ctx, "[u8;2]", a2, true, true);
     check_type::<[u8; 3]>(ctx, "[u8;3]", a3, true, true);
     check_type::<&'static [u8; 2]>(ctx, "&[u8;2]", r2, true, true);
@@ -1467,41 +1557,33 @@ fn all_domains(ctx: &mut Ctx, thorough: bool) {
     // --- Option
     let all_u8: Vec<u8> = (0..=u8::MAX).collect();
     check_type::<Option<u8>>(ctx, "Option<u8>", opt(&all_u8), false, true);
-    check_type::<Option<i16>>(ctx, "Option<i16>", opt(&sints::<i16>(16)), false, true);
+    check_only::<Option<i16>>(ctx, "Option<i16>", opt(&sints::<i16>(16)));
     check_type::<Option<S>>(ctx, "Option<&str>", opt(&if thorough { strs(&c6, 3) } else { s2.clone() }), false, true);
     check_type::<Option<S>>(ctx, "Option<&str> (long)", opt(&s_mix), false, true);
-    check_type::<Option<String>>(
+    check_only::<Option<String>>(
         ctx,
         "Option<String>",
         opt(&s_mix.iter().map(|s| s.to_string()).collect::<Vec<_>>()),
-        false,
-        true,
     );
     check_type::<Option<B>>(ctx, "Option<&[u8]>", opt(&if thorough { byte_strs(&b5, 3) } else { b3.clone() }), false, true);
-    check_type::<Option<Option<u8>>>(ctx, "Option<Option<u8>>", opt(&opt(&u8s)), false, true);
+    check_only::<Option<Option<u8>>>(ctx, "Option<Option<u8>>", opt(&opt(&u8s)));
     check_type::<Option<Option<S>>>(ctx, "Option<Option<&str>>", opt(&opt(&s_mix)), false, true);
 
     // --- arrays
-    check_type::<[u16; 1]>(ctx, "[u16;1]", arr1(&u16s), false, true);
+    check_only::<[u16; 1]>(ctx, "[u16;1]", arr1(&u16s));
     check_type::<[u16; 2]>(ctx, "[u16;2]", arr2(&u16s), false, true);
-    check_type::<[u16; 3]>(ctx, "[u16;3]", arr3(&u16s), false, true);
-    check_type::<[i8; 2]>(ctx, "[i8;2]", arr2(&i8s), false, true);
-    check_type::<[Option<u8>; 2]>(ctx, "[Option<u8>;2]", arr2(&opt(&u8s3)), false, true);
-    check_type::<[S; 1]>(ctx, "[&str;1]", arr1(&s_mix), false, true);
+    check_only::<[u16; 3]>(ctx, "[u16;3]", arr3(&u16s));
+    check_only::<[i8; 2]>(ctx, "[i8;2]", arr2(&i8s));
+    check_only::<[Option<u8>; 2]>(ctx, "[Option<u8>;2]", arr2(&opt(&u8s3)));
+    check_only::<[S; 1]>(ctx, "[&str;1]", arr1(&s_mix));
     check_type::<[S; 2]>(ctx, "[&str;2]", arr2(&s_mix), false, true);
     check_type::<[S; 3]>(ctx, "[&str;3]", arr3(&s8), false, true);
-    check_type::<[String; 2]>(
-        ctx,
-        "[String;2]",
-        arr2(&s8.iter().map(|s| s.to_string()).collect::<Vec<_>>()),
-        false,
-        true,
-    );
+    check_only::<[String; 2]>(ctx, "[String;2]", arr2(&s8.iter().map(|s| s.to_string()).collect::<Vec<_>>()));
     check_type::<[B; 2]>(ctx, "[&[u8];2]", arr2(&b3x), false, true);
     check_type::<[Option<B>; 2]>(ctx, "[Option<&[u8]>;2]", arr2(&opt(&b3x)), false, true);
     check_type::<[Option<S>; 3]>(ctx, "[Option<&str>;3]", arr3(&opt(&s4)), false, true);
     check_type::<[[S; 2]; 2]>(ctx, "[[&str;2];2]", arr2(&arr2(&s4)), false, true);
-    check_type::<[(S, u8); 2]>(ctx, "[(&str,u8);2]", arr2(&prod2(&s4, &u8s3)), false, true);
+    check_only::<[(S, u8); 2]>(ctx, "[(&str,u8);2]", arr2(&prod2(&s4, &u8s3)));
     if thorough {
         check_type::<[S; 2]>(ctx, "[&str;2] (43 strings)", arr2(&s2), false, true);
         check_type::<[B; 2]>(ctx, "[&[u8];2] (40 strings)", arr2(&b3), false, true);
@@ -1510,21 +1592,21 @@ fn all_domains(ctx: &mut Ctx, thorough: bool) {
     // --- tuples
     check_type::<(u8,)>(ctx, "(u8,)", all_u8.iter().map(|x| (*x,)).collect(), false, true);
     check_type::<(S,)>(ctx, "(&str,)", s_mix.iter().map(|x| (*x,)).collect(), false, true);
-    check_type::<(B,)>(ctx, "(&[u8],)", b3.iter().map(|x| (*x,)).collect(), false, true);
-    check_type::<(Option<S>,)>(ctx, "(Option<&str>,)", opt(&s_mix).into_iter().map(|x| (x,)).collect(), false, true);
+    check_only::<(B,)>(ctx, "(&[u8],)", b3.iter().map(|x| (*x,)).collect());
+    check_only::<(Option<S>,)>(ctx, "(Option<&str>,)", opt(&s_mix).into_iter().map(|x| (x,)).collect());
     check_type::<(u8, u16)>(ctx, "(u8,u16)", prod2(&u8s, &u16s), false, true);
-    check_type::<(i8, i16)>(ctx, "(i8,i16)", prod2(&i8s, &i16s), false, true);
-    check_type::<((), bool)>(ctx, "((),bool)", prod2(&[()], &[false, true]), false, true);
+    check_only::<(i8, i16)>(ctx, "(i8,i16)", prod2(&i8s, &i16s));
+    check_only::<((), bool)>(ctx, "((),bool)", prod2(&[()], &[false, true]));
     check_type::<(u8, S)>(ctx, "(u8,&str)", prod2(&u8s, &s2), false, true);
     check_type::<(S, u8)>(ctx, "(&str,u8)", prod2(&s2, &u8s), false, true);
     check_type::<(B, B)>(ctx, "(&[u8],&[u8])", prod2(&b2, &b2), false, true);
-    check_type::<(S, S)>(ctx, "(&str,&str)", prod2(&s_mix, &s_mix), false, true);
-    check_type::<(Option<S>, u8)>(ctx, "(Option<&str>,u8)", prod2(&opt(&s2abe), &u8s3), false, true);
-    check_type::<(i16, Option<B>)>(ctx, "(i16,Option<&[u8]>)", prod2(&i16s, &opt(&b2)), false, true);
+    check_only::<(S, S)>(ctx, "(&str,&str)", prod2(&s_mix, &s_mix));
+    check_only::<(Option<S>, u8)>(ctx, "(Option<&str>,u8)", prod2(&opt(&s2abe), &u8s3));
+    check_only::<(i16, Option<B>)>(ctx, "(i16,Option<&[u8]>)", prod2(&i16s, &opt(&b2)));
     check_type::<(u16, S, u8)>(ctx, "(u16,&str,u8)", prod3(&u16s3, &s2abe, &u8s3), false, true);
     check_type::<(S, S, S)>(ctx, "(&str,&str,&str)", prod3(&s8, &s8, &s8), false, true);
-    check_type::<(S, i8, B)>(ctx, "(&str,i8,&[u8])", prod3(&s8, &i8s, &b7), false, true);
-    check_type::<([S; 2], u8)>(ctx, "([&str;2],u8)", prod2(&arr2(&s4), &u8s3), false, true);
+    check_only::<(S, i8, B)>(ctx, "(&str,i8,&[u8])", prod3(&s8, &i8s, &b7));
+    check_only::<([S; 2], u8)>(ctx, "([&str;2],u8)", prod2(&arr2(&s4), &u8s3));
     {
         let mut v: Vec<(u8, S, B, i8)> = vec![];
         for a in [0u8, 255] {
@@ -1575,7 +1657,7 @@ fn all_domains(ctx: &mut Ctx, thorough: bool) {
                 }
             }
         }
-        check_type::<(B, u8)>(ctx, "(&[u8],u8) (varint length boundaries)", v, false, false);
+        check_only::<(B, u8)>(ctx, "(&[u8],u8) (varint length boundaries)", v);
     }
 }
 
@@ -1591,7 +1673,7 @@ pub fn run(tier: &str) -> i32 {
     } else {
         Limits { triple_max: 300, table_max: 800, orders: &["ascending", "descending", "permuted"] }
     };
-    let mut ctx = Ctx { limits, types: vec![], viols: vec![], jobs: vec![], caps_hit: vec![] };
+    let mut ctx = Ctx { limits, types: vec![], viols: vec![], jobs: vec![], subsampled: vec![] };
 
     if let Err(p) = par::guarded(|| all_domains(&mut ctx, thorough)) {
         rep.machinery_errors.push(format!("typex: harness panic outside the code under test: {p}"));
@@ -1652,9 +1734,14 @@ pub fn run(tier: &str) -> i32 {
             "trait_method_calls": t.calls,
             "table_runs": tabs.map(|v| v.len()).unwrap_or(0),
             "table_keys": tabs.and_then(|v| v.first().map(|o| o.keys)),
-            "tree_heights": tabs.map(|v| v.iter().filter_map(|o| o.height).collect::<Vec<_>>()),
+            "tree_heights_8_byte_values": tabs
+                .map(|v| v.iter().filter(|o| o.value_len == SLIM).filter_map(|o| o.height).collect::<Vec<_>>()),
+            "tree_heights_150_byte_values": tabs
+                .map(|v| v.iter().filter(|o| o.value_len != SLIM).filter_map(|o| o.height).collect::<Vec<_>>()),
             "branch_pages": tabs.map(|v| v.iter().map(|o| o.branch_pages).sum::<u64>()),
-            "branch_keys_not_in_table": tabs.map(|v| v.iter().map(|o| o.shortened_branch_keys).sum::<u64>()),
+            "branch_keys_not_in_table": tabs
+                .filter(|v| v.iter().any(|o| o.decoded))
+                .map(|v| v.iter().map(|o| o.shortened_branch_keys).sum::<u64>()),
         }));
     }
     let table_ops: u64 = outs.iter().map(|o| o.ops).sum();
@@ -1681,15 +1768,14 @@ pub fn run(tier: &str) -> i32 {
              states = elements summed over domains; transitions = ordered pairs. A pair (type,a,b) with a<b counts as non-trivial, \
              and is counted once in distinct_nontrivial, iff its separator is strictly shorter than enc(a) OR enc(a) and enc(b) \
              share a common byte prefix of at least one byte (compare has to look past equal leading bytes); pairs are distinct \
-             by construction because every (type,a,b) is visited exactly once."
+             by construction because every (type,a,b) is visited exactly once. Integration step (key types with table_runs > 0): \
+             the whole domain (for domains above bounds.table_max_keys the evenly spaced subset named in bounds) is inserted into a \
+             real table for every insertion order x value length listed in `tables`, closed, decoded independently where a \
+             comparator exists, reopened and read back by iter/len/get/range, half removed, re-inserted, all removed."
         ),
     );
     rep.cov("samples", json!(samples));
     rep.cov("exhaustive", json!(true));
-    if !ctx.caps_hit.is_empty() {
-        // only the integration step is subsampled; the trait-method enumeration stays complete
-        rep.cov("caps_hit", json!(ctx.caps_hit));
-    }
     rep.cov("triples", json!(triples));
     rep.cov("separators_computed", json!(separators));
     rep.cov("separators_shortened", json!(shortened));
@@ -1703,9 +1789,11 @@ pub fn run(tier: &str) -> i32 {
         json!({
             "runs": table_runs,
             "insertion_orders": ctx.limits.orders,
+            "value_type": "&[u8]", "value_lengths": [SLIM, FAT],
             "runs_checked_by_independent_decoder": decoded_runs,
-            "branch_pages_seen_by_decoder": branch_pages,
-            "branch_keys_that_are_not_table_keys": shortened_branch_keys,
+            "branch_pages": branch_pages,
+            "max_tree_height": outs.iter().filter_map(|o| o.height).max(),
+            "branch_keys_that_are_not_table_keys_in_decoded_runs": shortened_branch_keys,
             "page_size": PAGE_SIZE,
             "region_size": REGION_SIZE,
             "api_calls": table_ops,
@@ -1716,6 +1804,7 @@ pub fn run(tier: &str) -> i32 {
         json!({
             "triple_max": ctx.limits.triple_max,
             "table_max_keys": ctx.limits.table_max,
+            "table_step_uses_evenly_spaced_subset": ctx.subsampled,
             "byte_alphabet": "00 01 7f 80 ff",
             "byte_string_max_len": if thorough { 5 } else { 4 },
             "char_alphabet": "a b U+7F U+80 U+20AC U+10348",
